@@ -210,7 +210,22 @@ def run_case(case):
                 except Exception as e:  # noqa: BLE001
                     row.append(type(e).__name__)
             eqc.append(row)
-        evs.append({"kind": "compound", "objs": descr, "eq": eqc, "hash": [1] * len(cs), "copies": [[1, 2]] if len(cs) > 1 and descr[1] == descr[0] else []})
+        # compound contracts offer no hash on the pinned tree (TypeError): nothing to be coherent with.  Where hash() answers, equal ones hash equally.
+        try:
+            ids = {}
+            hsc = [ids.setdefault(hash(x), len(ids) + 1) for x in cs]
+        except TypeError:
+            hsc = [1] * len(cs)
+        evs.append({"kind": "compound", "objs": descr, "eq": eqc, "hash": hsc, "copies": [[1, 2]] if len(cs) > 1 and descr[1] == descr[0] else []})
+        # the same for their guarantee unions (NestedTermList: == by meaning)
+        try:
+            ids = {}
+            hsn = [ids.setdefault(hash(x.g), len(ids) + 1) for x in cs]
+            eqn = [["true" if x.g == y.g else "false" for y in cs] for x in cs]
+            if any(eqn[i][j] == "true" and hsn[i] != hsn[j] for i in range(len(cs)) for j in range(len(cs))):
+                evs.append({"kind": "compound", "objs": descr, "eq": eqc, "hash": hsn, "copies": [], "what": "guarantee unions"})
+        except Exception:  # noqa: BLE001 - unhashable, or == declined: nothing offered, nothing judged
+            pass
     for e in evs:
         e["groups"] = ["eq"]
     return {"id": case["id"], "ev": evs}
